@@ -204,6 +204,18 @@ def check_case(case, ctx):
     ctx.close("sum-reorganisation-energy/read-in-units", got, float(orc.from_internal(wlam, case["u_read"])), rtol=1e-7,
               where=where, unit=case["u_read"])
 
+    # ---- a sum of spectral densities converted to a correlation function carries the summed parameters --------------
+    if fam == "sd" and not case["self_add"] and all(c["ftype"] == "OverdampedBrownian" for c in comps):
+        def to_cf():
+            cf = total.get_CorrelationFunction(temperature=float(T))
+            return float(cf.lamb), len(cf.params), float(cf.measure_reorganization_energy())
+        ok, r = guarded(ctx, "sd-to-cf", to_cf, where)
+        if ok:
+            ctx.close("sd-to-cf/reorganisation-energy", r[0], wlam, rtol=1e-7, where=where, n=len(leaves))
+            if r[1] != len(leaves):
+                ctx.fail("sd-to-cf/number-of-components", where, got=r[1], want=len(leaves))
+            ctx.label("sd-to-cf:n=%d" % min(len(leaves), 3))
+
     # ---- single analytic functions ------------------------------------------------------------------------------
     c0 = comps[0]
     if c0["ftype"].startswith("OverdampedBrownian"):
